@@ -161,7 +161,8 @@ def judgeScheme2 (op : String) (out : List String) : PS Bool := do
       checkCounters rs; oEnd) out); pure true
   | "lq_msk" =>
     let bs ← liftP nextBytes
-    let s := ofBytesLE bs
+    -- `MasterKey::unmarshal`: the model of Impl/Marshal.lean (`lqUnmarshalMsk`; the harness passes exactly 32 bytes)
+    let s ← match lqUnmarshalMsk true bs with | some s => pure s | none => failPS "lq_msk: short buffer"
     setSt { st with lqMsks := st.lqMsks.push s }
     liftE (expectToks op [toString st.lqMsks.size, "1", toHex 64 s] out); pure true
   | "lq_id" =>
@@ -211,20 +212,22 @@ def judgeScheme2 (op : String) (out : List String) : PS Bool := do
     pure true
   | "lq_m" =>
     let ty ← liftP next; let id ← liftP nextNat; let comp := (← liftP next) == "1"
-    let bytes ← match ty with
-      | "params" => match st.lqParams[id]? with | some p => pure (encG2 comp p.p ++ encG2 comp p.sp) | none => failPS "index"
-      | "id" => pure (encG1 comp (st.lqIds[id]?.getD .inf))
-      | "msk" => pure (toBytesLE 32 (st.lqMsks[id]?.getD 0))
-      | "sk" => pure (encG1 comp (st.lqSks[id]?.getD .inf))
-      | "ct" => pure (encG2 comp ((st.lqCts[id]?.getD (.inf, none)).1))
+    -- the object-level models of Impl/Marshal.lean (`lqMarshal*`, `lq*Len`): the objects of Properties/C15c.lean
+    let (len, bytes) ← match ty with
+      | "params" => match st.lqParams[id]? with | some p => pure (lqParamsLen comp, lqMarshalParams comp { p := p.p, sp := p.sp }) | none => failPS "index"
+      | "id" => pure (lqIdLen comp, lqMarshalId comp (st.lqIds[id]?.getD .inf))
+      | "msk" => pure (lqMskLen comp, lqMarshalMsk comp (st.lqMsks[id]?.getD 0))
+      | "sk" => pure (lqSkLen comp, lqMarshalSk comp (st.lqSks[id]?.getD .inf))
+      | "ct" => pure (lqCtLen comp, lqMarshalCt comp ((st.lqCts[id]?.getD (.inf, none)).1))
       | _ => failPS "lq_m type"
-    liftE (expectToks op [toString bytes.length, "1", bytesToHex bytes] out); pure true
+    if bytes.length != len then failPS "lq_m: model length function differs from the length of the model's bytes"
+    liftE (expectToks op [toString len, "1", bytesToHex bytes] out); pure true
   | "lq_um" =>
     let ty ← liftP next; let comp := (← liftP next) == "1"; let chk := (← liftP next) == "1"; let bs ← liftP nextBytes
     match ty with
     | "params" =>
-      -- LQ-IBE objects are one or two bare elements: read with the element readers of Impl/Marshal.lean
-      match (do let (p, rest) ← readG2 umD comp bs; let (sp, _) ← readG2 umD comp rest; pure (p, sp) : Option (G2Pt × G2Pt)) with
+      -- the object-level readers of Impl/Marshal.lean (`lqUnmarshal*`): the objects of Properties/C15c.lean
+      match (lqUnmarshalParams umD comp bs).map (fun pp => (pp.p, pp.sp)) with
       | some (p, sp) =>
         setSt { st with lqParams := st.lqParams.push { p := p, sp := sp } }
         liftE (runO (do oCheck (!((← oTok) != "1")) "rejected valid params"; let _ ← oNat; expectEq "P" (← oG2) p; expectEq "sP" (← oG2) sp; oEnd) out); pure true
@@ -234,8 +237,8 @@ def judgeScheme2 (op : String) (out : List String) : PS Bool := do
           if out.head? == some "1" then setSt { st with lqParams := st.lqParams.push { p := .inf, sp := .inf } }
           pure true
     | "id" | "sk" =>
-      match readG1 umD comp bs with
-      | some (p, _) =>
+      match (if ty == "id" then lqUnmarshalId umD comp bs else lqUnmarshalSk umD comp bs) with
+      | some p =>
         if ty == "id" then setSt { st with lqIds := st.lqIds.push p } else setSt { st with lqSks := st.lqSks.push p }
         liftE (runO (do oCheck (!((← oTok) != "1")) "rejected valid element"; let _ ← oNat; expectEq "element" (← oA1) p; oEnd) out); pure true
       | none =>
@@ -244,8 +247,8 @@ def judgeScheme2 (op : String) (out : List String) : PS Bool := do
           if out.head? == some "1" then (if ty == "id" then setSt { st with lqIds := st.lqIds.push .inf } else setSt { st with lqSks := st.lqSks.push .inf })
           pure true
     | "ct" =>
-      match readG2 umD comp bs with
-      | some (p, _) =>
+      match lqUnmarshalCt umD comp bs with
+      | some p =>
         setSt { st with lqCts := st.lqCts.push (p, none) }
         liftE (runO (do oCheck (!((← oTok) != "1")) "rejected valid ciphertext"; let _ ← oNat; expectEq "rP" (← oA2) p; oEnd) out); pure true
       | none =>
